@@ -4,20 +4,21 @@
 # demo fails with it and passes without it. Writes <src>/verify.log and prints a one-line verdict.
 set -u
 SRC=$1; ID=$2
-WT=/tmp/wt/verify_$ID
+WT=${VERIFY_WT:-/tmp/wt}/verify_$ID
 LOG=$SRC/verify.log
 : > $LOG
 git -C /repo worktree remove --force $WT >/dev/null 2>&1
 git -C /repo worktree add --detach $WT HEAD -q || { echo "$ID: worktree failed"; exit 2; }
 cd $WT
-export CARGO_TARGET_DIR=/tmp/wt/verify_target CARGO_NET_OFFLINE=true
+export CARGO_TARGET_DIR=${VERIFY_TARGET:-/tmp/wt/verify_target} CARGO_NET_OFFLINE=true
+FEAT=""; [ -f $SRC/demo_features ] && FEAT="--features $(cat $SRC/demo_features)"
 T=zz_demo_$ID; [ -f $SRC/demo_name ] && T=$(cat $SRC/demo_name)  # some demos depend on their crate name (jar ordering)
 cp $SRC/demo.rs tests/$T.rs
 # 1. demo on unchanged tree
-timeout 900 cargo test --offline --test $T >> $LOG 2>&1; BASE=$?
+timeout 900 cargo test --offline $FEAT --test $T >> $LOG 2>&1; BASE=$?
 # 2. apply
 if ! git apply $SRC/patch.diff >> $LOG 2>&1; then echo "$ID: PATCH DOES NOT APPLY"; git -C /repo worktree remove --force $WT; exit 3; fi
-timeout 900 cargo test --offline --test $T >> $LOG 2>&1; MUT=$?
+timeout 900 cargo test --offline $FEAT --test $T >> $LOG 2>&1; MUT=$?
 # 3. full suite with the mutant (demo excluded)
 rm tests/$T.rs
 timeout 3000 cargo nextest run --workspace --no-fail-fast --test-threads 8 --offline > $SRC/suite.log 2>&1; SUITE=$?
